@@ -75,6 +75,19 @@ def gen_freqs(rng, F, fp, allow_zero):
     return [10.0 ** (6 + i) for i in range(F)]
 
 
+def _tie(rng, re_):
+    """partly equal reference impedances: some ports agree exactly (in the
+    real part), others do not"""
+    n = len(re_)
+    if n >= 3 and rng.random() < 0.35:
+        for _ in range(int(rng.integers(1, n))):
+            i, j = rng.choice(n, 2, replace=False)
+            re_[j] = re_[i]
+        if len(set(float(x) for x in re_)) == 1:
+            re_[0] = re_[0] * 2.0
+    return re_
+
+
 def gen_z0(rng, n, F, want):
     """want: 'equal' 'unequal' 'complex' 'perf'; returns (kind, z0|None, fz0)"""
     if want == "equal":
@@ -83,18 +96,19 @@ def gen_z0(rng, n, F, want):
         return [complex(r)] * n, None
     if want == "unequal":
         lo, hi = (-1, 3) if rng.random() < 0.2 else (1, 2.5)
-        z = [complex(float(10 ** rng.uniform(lo, hi))) for _ in range(n)]
-        if n > 1 and z[0] == z[1]:
+        z = [complex(float(x)) for x in
+             _tie(rng, 10 ** rng.uniform(lo, hi, n))]
+        if n > 1 and z[0] == z[1] and len(set(z)) == 1:
             z[1] = z[0] * 2
         return z, None
     if want == "complex":
-        re_ = 10 ** rng.uniform(0, 3, n)
+        re_ = _tie(rng, 10 ** rng.uniform(0, 3, n))
         im = re_ * rng.uniform(-2, 2, n)
         return [complex(a, b) for a, b in zip(re_, im)], None
     fz = []
     cplx = rng.random() < 0.6
     for _ in range(F):
-        re_ = 10 ** rng.uniform(0, 3, n)
+        re_ = _tie(rng, 10 ** rng.uniform(0, 3, n))
         im = re_ * rng.uniform(-2, 2, n) if cplx else np.zeros(n)
         fz.append([complex(a, b) for a, b in zip(re_, im)])
     return None, fz
